@@ -163,7 +163,7 @@ fn fvals(d: usize) -> BoxedStrategy<Vec<f64>> {
 }
 
 fn f_strategy(_t: Tier) -> BoxedStrategy<FCase> {
-    (prop_oneof![4 => 2usize..=4, 4 => 5usize..=10, 2 => 11usize..=30], any::<u16>())
+    (prop_oneof![8 => 2usize..=4, 8 => 5usize..=10, 4 => 11usize..=30, 1 => 31usize..=80], any::<u16>())
         .prop_flat_map(|(d, tag)| (fvals(d), Just(tag), prop_oneof![2 => Just(vec![]), 3 => (2usize..=40).prop_flat_map(|w| proptest::collection::vec(-25.0f64..25.0, w))]))
         .prop_map(|(vals, tag, warm)| FCase { vals: vals.into_iter().map(Fx).collect(), tag, warm: warm.into_iter().map(Fx).collect() })
         .boxed()
@@ -531,7 +531,7 @@ pub fn property() -> Property {
             }),
             Box::new(Sub {
                 name: "float",
-                rule: "the eight float types, degree 2..=30 (in 60 % of the cases after an unrelated check of degree 2..=40 was processed by the same arithmetic object: the rule must not depend on that history), values in the working range (|x| <= 30 for f64, <= 12 for f32) by classes (uniform, all equal magnitude, one tiny/zero, two equal minima, zeros, near 100/8 and 127/8, all strong); oracle against the own exact box-plus fold: one message per neighbour; sign; magnitude <= smallest other + tol; phi/tanh within 16 eps ((d + sum phi(|x_j|)) e^|y|/2 + d + |y|); A-Min*: box-plus of the others for the least reliable neighbour, of all inputs for the others, tol 16 eps d (max|x|+1); min*-approx inside [max(0, exact-(d-2) ln2), exact] and equal to its documented sequential definition; non-trivial = degree >= 3 and an exact output magnitude >= 0.1",
+                rule: "the eight float types, degree 2..=30 (one case in 21: 31..=80; in 60 % of the cases after an unrelated check of degree 2..=40 was processed by the same arithmetic object: the rule must not depend on that history), values in the working range (|x| <= 30 for f64, <= 12 for f32) by classes (uniform, all equal magnitude, one tiny/zero, two equal minima, zeros, near 100/8 and 127/8, all strong); oracle against the own exact box-plus fold: one message per neighbour; sign; magnitude <= smallest other + tol; phi/tanh within 16 eps ((d + sum phi(|x_j|)) e^|y|/2 + d + |y|); A-Min*: box-plus of the others for the least reliable neighbour, of all inputs for the others, tol 16 eps d (max|x|+1); min*-approx inside [max(0, exact-(d-2) ln2), exact] and equal to its documented sequential definition; non-trivial = degree >= 3 and an exact output magnitude >= 0.1",
                 cases: |t| t.pick(300_000, 10_000_000),
                 strategy: f_strategy,
                 check: check_f,
